@@ -38,7 +38,7 @@ type c06Case struct {
 	// values for expiry / keeps the same label values, so that a GC pass has
 	// something to get wrong)
 	Extra []string `json:"extra,omitempty"`
-	Storm   int            `json:"storm"` // reloads of every running program after the history
+	Storm int      `json:"storm"` // reloads of every running program after the history
 }
 
 func (c *c06Case) n() int { return len(c.Progs) + len(c.Extra) }
@@ -472,7 +472,6 @@ func TestC06(t *testing.T) {
 		})
 	})
 }
-
 
 // c06Compact renames the program's metrics to m0, m1, ... in declaration order.
 func c06Compact(p *gen.Program) {
